@@ -163,6 +163,55 @@ def extract():
     cbl = ops_of_pattern(mc.group(1), "UnOp", unames)
     info["cbl"] = [u in cbl for u in unames]
 
+    # ---- context strengths forced at restricted positions (commits 95d15ad, 2a611aa): numbers read from the text,
+    #      the surrounding statements must have exactly the modelled shape
+    body = fn_text(AST, r"impl\s+WriteSource\s+for\s+pr::Expr\s*")
+    ma = re.match(
+        r'^fn write\(&self, mut opt: WriteOpt\) -> Option<String> \{ let mut r = String::new\(\); '
+        r'if self\.alias\.is_some\(\) && opt\.context_strength > (\d+) \{ let mut inner = opt\.clone\(\); '
+        r'inner\.context_strength = 0; inner\.unbound_expr = false; inner\.consume_width\(2\)\?; '
+        r'return Some\(format!\("\(\{\}\)", self\.write\(inner\)\?\)\); \} '
+        r'if let Some\(alias\) = &self\.alias \{ r \+= opt\.consume\(&write_ident_part\(alias\)\)\?; r \+= opt\.consume\(" = "\)\?; '
+        r'opt\.unbound_expr = false; \} if !needs_parenthesis\(self, &opt\) \{ r \+= &self\.kind\.write\(opt\.clone\(\)\)\?; \} else \{', body)
+    if not ma:
+        raise ExtractError("pr::Expr::write no longer begins with the modelled alias handling")
+    info["alias_ctx"] = int(ma.group(1))
+    body = fn_text(AST, r"impl\s+WriteSource\s+for\s+pr::ExprKind\s*")
+    mn = re.search(
+        r'let no_alias = \|node: &pr::Expr, opt: &WriteOpt\| \{ let mut opt = opt\.clone\(\); if node\.alias\.is_some\(\) \{ '
+        r'opt\.context_strength = opt\.context_strength\.max\((\d+)\); \} opt \};', body)
+    if not mn:
+        raise ExtractError("ExprKind::write: the no_alias closure of the FuncCall arm no longer has the modelled shape")
+    if (body.count("no_alias(") != 2
+            or "write_within( func_call.name.as_ref(), self, no_alias(func_call.name.as_ref(), &opt), )?" not in body
+            or "let arg = write_within(arg, self, no_alias(arg, &opt))?;" not in body):
+        raise ExtractError("ExprKind::write: no_alias is no longer applied to exactly the callee and the named-argument values")
+    info["noalias_ctx"] = int(mn.group(1))
+    ml = re.search(
+        r'let mut opt_default = opt\.clone\(\); opt_default\.context_strength = opt_default\.context_strength\.max\((\d+)\); '
+        r'r \+= opt\.consume\(&param\.default_value\.as_ref\(\)\.unwrap\(\)\.write\(opt_default\)\?\)\?;', body)
+    mb = re.search(
+        r'opt\.context_strength = opt\.context_strength\.max\((\d+)\); if let Some\(body\) = c\.body\.write\(opt\.clone\(\)\) \{', body)
+    if not ml or not mb or body.count("context_strength.max(") != 3:
+        raise ExtractError("ExprKind::write: the Func arm no longer raises the context of default values and of the body in the modelled way")
+    info["lambda_default_ctx"], info["lambda_body_ctx"] = int(ml.group(1)), int(mb.group(1))
+    body = fn_text(AST, r"impl\s+WriteSource\s+for\s+pr::SwitchCase\s*")
+    mcs = re.match(
+        r'^fn write\(&self, mut opt: WriteOpt\) -> Option<String> \{ let mut r = String::new\(\); '
+        r'opt\.context_strength = opt\.context_strength\.max\((\d+)\); r \+= &self\.condition\.write\(opt\.clone\(\)\)\?; '
+        r'r \+= " => "; r \+= &self\.value\.write\(opt\)\?; Some\(r\) \}$', body)
+    if not mcs:
+        raise ExtractError("SwitchCase::write no longer has the modelled shape")
+    info["case_ctx"] = int(mcs.group(1))
+    body = fn_text(AST, r"impl\s+WriteSource\s+for\s+pr::Stmt\s*")
+    man = re.search(
+        r'for annotation in &self\.annotations \{ r \+= "@"; let mut opt_annotation = opt\.clone\(\); '
+        r'opt_annotation\.context_strength = opt_annotation\.context_strength\.max\((\d+)\); '
+        r'r \+= &annotation\.expr\.write\(opt_annotation\)\?;', body)
+    if not man:
+        raise ExtractError("Stmt::write: annotations are no longer written at a raised context strength in the modelled way")
+    info["annotation_ctx"] = int(man.group(1))
+
     # ---- keywords() and valid_prql_ident
     body = fn_text(AST, r"fn\s+keywords\s*\(\)")
     mk = re.search(r"HashSet::from_iter\(\[(.*?)\]\)", body)
@@ -177,9 +226,10 @@ def extract():
     if not mr:
         raise ExtractError("valid_prql_ident: regex not found")
     rx = mr.group(1)
-    mshape = re.match(r"^\^\(\?:\\\*\|\[([^\]]*)\]\[([^\]]*)\]\*\)\$$", rx)
+    # since commit 328740d the wildcard alternative `\*|` is gone: a name spelled `*` keeps its backticks
+    mshape = re.match(r"^\^\[([^\]]*)\]\[([^\]]*)\]\*\$$", rx)
     if not mshape:
-        raise ExtractError("valid_prql_ident: regex no longer has the shape ^(?:\\*|[..][..]*)$ : %s" % rx)
+        raise ExtractError("valid_prql_ident: regex no longer has the shape ^[..][..]*$ : %s" % rx)
     info["fmt_ident_start"] = char_class(mshape.group(1))
     info["fmt_ident_rest"] = char_class(mshape.group(2))
     body = fn_text(AST, r"pub\s+fn\s+write_ident_part\s*\(")
@@ -330,14 +380,16 @@ def char_class(spec):
 
 
 # sha1[:16] of the normalised source of each pinned function, as read when the model was written
+# (re-pinned for /repo HEAD 2a611aa: Expr::write, ExprKind::write, Ident::write, display_interpolation, SwitchCase::write,
+#  parser::maybe_aliased changed with the fix commits 95d15ad 1b7b9df 4d5b01d e945e0b c8b3817 2a611aa)
 PINNED = {
     "needs_parenthesis": "7130b65cce8b7964",
     "write_within": "dd3053dbcfdc95d3",
-    "Expr::write": "4a44b4110c37b8fe",
-    "ExprKind::write": "b2c9bd55f9ad4e95",
-    "Ident::write": "9d211b4636ec4db3",
-    "display_interpolation": "f82062f0c0a1b341",
-    "SwitchCase::write": "1301b5472c314484",
+    "Expr::write": "84933ce80c1edbd5",
+    "ExprKind::write": "92e8b5198df1a507",
+    "Ident::write": "eb121fd380826b6f",
+    "display_interpolation": "cd78c3583840b05d",
+    "SwitchCase::write": "8307a1337cef4197",
     "write_between": "c2faf8837235e62c",
     "Literal::fmt": "aa530c512dd8194a",
     "quote_string": "aa20f7be2c157083",
@@ -352,7 +404,7 @@ PINNED = {
     "parser::range": "a89354fc2c47e46a",
     "parser::func_call": "39ec820c1a8b05b4",
     "parser::case": "0c70ef9af3524b8d",
-    "parser::maybe_aliased": "4fe827cc6dff0284",
+    "parser::maybe_aliased": "6f50fe3f89b345fd",
 }
 
 
@@ -386,7 +438,12 @@ def generate():
     v += "Definition fmt_unary_strength : N := %d.\nDefinition fmt_range_strength : N := %d.\nDefinition fmt_call_strength : N := %d.\n" % (ks["Unary"], ks["Range"], ks["FuncCall"])
     v += "Definition fmt_func_strength : N := %d.\nDefinition fmt_ident_strength : N := %d.\nDefinition fmt_other_strength : N := %d.\n" % (ks["Func"], ks["Ident"], ks["_"])
     v += "Definition fmt_can_bind_left : list bool := %s.\n\n" % lst("true" if x else "false" for x in info["cbl"])
-    v += "(* write_ident_part: keywords() and valid_prql_ident = star or [start][rest]...; display_ident_part classes *)\n"
+    v += "(* context strengths forced at restricted positions: an aliased expression is parenthesised above fmt_alias_ctx;\n"
+    v += "   aliased callee / named-argument value are written at >= fmt_noalias_ctx; case branches at >= fmt_case_ctx;\n"
+    v += "   lambda default values / body and annotation expressions at >= the three last numbers *)\n"
+    v += "Definition fmt_alias_ctx : N := %d.\nDefinition fmt_noalias_ctx : N := %d.\nDefinition fmt_case_ctx : N := %d.\n" % (info["alias_ctx"], info["noalias_ctx"], info["case_ctx"])
+    v += "Definition fmt_lambda_default_ctx : N := %d.\nDefinition fmt_lambda_body_ctx : N := %d.\nDefinition fmt_annotation_ctx : N := %d.\n\n" % (info["lambda_default_ctx"], info["lambda_body_ctx"], info["annotation_ctx"])
+    v += "(* write_ident_part: keywords() and valid_prql_ident = [start][rest]...; display_ident_part classes *)\n"
     v += "Definition fmt_keywords : list (list N) :=\n  %s.\n" % lst("%s (* %s *)" % (codes(k), k) for k in info["fmt_keywords"])
     v += "Definition fmt_ident_start : list (N * N) := %s.\nDefinition fmt_ident_rest : list (N * N) := %s.\n" % (ranges(info["fmt_ident_start"]), ranges(info["fmt_ident_rest"]))
     v += "Definition disp_ident_start : list (N * N) := %s.\nDefinition disp_ident_rest : list (N * N) := %s.\n" % (ranges(info["disp_ident_start"]), ranges(info["disp_ident_rest"]))
